@@ -52,10 +52,30 @@ if not _pf.startswith(REPO + os.sep):
     raise SystemExit(f"INCONCLUSIVE reason=panoptica imported from {_pf}, not from {REPO}")
 
 
+class _Done:
+    def __init__(self, value):
+        self._v = value
+
+    def get(self, timeout=None):
+        return self._v
+
+    def wait(self, timeout=None):
+        return None
+
+    def ready(self):
+        return True
+
+    def successful(self):
+        return True
+
+
 class SerialPool:
-    """order-preserving in-process stand-in for multiprocessing.Pool"""
+    """in-process stand-in for multiprocessing.Pool.  Ordered operations (map, imap, starmap, ...) preserve
+    order; imap_unordered yields results in a permuted order, which is a legal behaviour of the real pool
+    (completion order) and makes a dependence on it observable."""
 
     calls = 0
+    unordered_calls = 0
 
     def __init__(self, *a, **k):
         pass
@@ -66,13 +86,54 @@ class SerialPool:
     def __exit__(self, *a):
         return False
 
-    def starmap(self, fn, iterable):
+    def starmap(self, fn, iterable, chunksize=None):
         SerialPool.calls += 1
         return [fn(*args) for args in iterable]
 
-    def map(self, fn, iterable):
+    def map(self, fn, iterable, chunksize=None):
         SerialPool.calls += 1
         return [fn(a) for a in iterable]
+
+    def imap(self, fn, iterable, chunksize=1):
+        SerialPool.calls += 1
+        return iter([fn(a) for a in iterable])
+
+    def imap_unordered(self, fn, iterable, chunksize=1):
+        SerialPool.calls += 1
+        SerialPool.unordered_calls += 1
+        res = [fn(a) for a in iterable]
+        k = SerialPool.unordered_calls
+        if len(res) > 1:  # deterministic permutation: rotate, and reverse every other call
+            r = k % len(res)
+            res = res[r:] + res[:r]
+            if k % 2:
+                res.reverse()
+        return iter(res)
+
+    def apply(self, fn, args=(), kwds=None):
+        SerialPool.calls += 1
+        return fn(*args, **(kwds or {}))
+
+    def apply_async(self, fn, args=(), kwds=None, callback=None, error_callback=None):
+        v = self.apply(fn, args, kwds)
+        if callback:
+            callback(v)
+        return _Done(v)
+
+    def map_async(self, fn, iterable, chunksize=None, callback=None, error_callback=None):
+        return _Done(self.map(fn, iterable))
+
+    def starmap_async(self, fn, iterable, chunksize=None, callback=None, error_callback=None):
+        return _Done(self.starmap(fn, iterable))
+
+    def close(self):
+        pass
+
+    def join(self):
+        pass
+
+    def terminate(self):
+        pass
 
 
 _REAL_POOLS = {}
@@ -167,13 +228,22 @@ def make_groups(g):
 
 
 DEFAULT_METRICS = ["DSC", "IOU", "ASSD", "RVD"]
+_APPROX = {}
+
+
+def shared_approximator(backend):
+    """one approximator object per backend setting for the whole process: a configuration component that
+    users legitimately share between evaluators and that sees 1-D, 2-D and 3-D inputs in turn"""
+    if backend not in _APPROX:
+        _APPROX[backend] = ConnectedComponentsInstanceApproximator(cca_backend=BACKEND[backend])
+    return _APPROX[backend]
 
 
 def make_evaluator(cfg: dict) -> Panoptica_Evaluator:
     kw = dict(
         expected_input=INPUT[cfg["input"]],
         instance_approximator=(
-            ConnectedComponentsInstanceApproximator(cca_backend=BACKEND[cfg.get("backend")])
+            shared_approximator(cfg.get("backend"))
             if cfg["input"] == "SEMANTIC" or cfg.get("force_approx")
             else None
         ),
